@@ -548,6 +548,10 @@ class Executor(object):
             t = self.models.is_none(self, st, other)
             return t if t is not None else tm.FALSE
         if isinstance(a, VNotImplemented) or isinstance(b, VNotImplemented):
+            if isinstance(a, VObj) or isinstance(b, VObj):
+                t = self.models.identical(self, st, a, b)     # a value whose identity with the singleton is symbolic
+                if t is not None:
+                    return t
             return tm.B(isinstance(a, VNotImplemented) and isinstance(b, VNotImplemented))
         if isinstance(a, VObj) and isinstance(b, VObj):
             t = self.models.identical(self, st, a, b)
@@ -913,7 +917,40 @@ class Executor(object):
 
         return self.bind(self.eval(gen.iter, st, fr), fn)
 
+    def _any_idiom(self, node, st, fr):
+        """any(P(x) for x in S) over a symbolic sequence S: exists i in [0, |S|). P(S[i]) -- P must be a pure expression
+        with a single, non-exceptional outcome"""
+        g = node.args[0]
+        gen = g.generators[0]
+
+        def fn(s, it):
+            if isinstance(it, (VList, VTuple)):
+                items = list(s.get(it, "items")) if isinstance(it, VList) else list(it.items)
+                acc, cur = tm.FALSE, s
+                for item in items:
+                    outs = [(s1, t1, v1) for (s0, _t0, _v0) in self.assign(gen.target, item, cur, fr)
+                            for (s1, t1, v1) in self.eval(g.elt, s0, fr)]
+                    if len(outs) != 1 or outs[0][1] != "ok":
+                        raise Unsupported("any() over an expression with several outcomes")
+                    acc = tm.or_(acc, self.truth(outs[0][0], outs[0][2]))
+                return [(s, "ok", VT(acc))]
+            if not (isinstance(it, VT) and it.t.sort.startswith("(Seq")):
+                raise Unsupported("any() over %r" % (it,))
+            i = tm.V("any_i!%d" % next(tm._fresh), INT)
+            elem = self.models.from_elem(self, s, tm.seqnth(it.t, i)) if tm.elem_sort(it.t.sort) != STR else VT(tm.seqnth(it.t, i))
+            outs = [(s1, t1, v1) for (s0, _t0, _v0) in self.assign(gen.target, elem, s, fr) for (s1, t1, v1) in self.eval(g.elt, s0, fr)]
+            if len(outs) != 1 or outs[0][1] != "ok":
+                raise Unsupported("any() over an expression with several outcomes")
+            body = self.truth(outs[0][0], outs[0][2])
+            return [(s, "ok", VT(tm.exists_range(i, 0, tm.seqlen(it.t), body)))]
+
+        return self.bind(self.eval(gen.iter, st, fr), fn)
+
     def e_Call(self, node, st, fr):
+        if (isinstance(node.func, ast.Name) and node.func.id == "any" and len(node.args) == 1 and not node.keywords
+                and isinstance(node.args[0], ast.GeneratorExp) and len(node.args[0].generators) == 1
+                and not node.args[0].generators[0].ifs):
+            return self._any_idiom(node, st, fr)
         if (isinstance(node.func, ast.Name) and node.func.id == "sum" and len(node.args) == 1 and not node.keywords
                 and isinstance(node.args[0], ast.GeneratorExp) and isinstance(node.args[0].elt, ast.Constant)
                 and node.args[0].elt.value == 1 and len(node.args[0].generators) == 1 and not node.args[0].generators[0].ifs):
